@@ -56,6 +56,7 @@ def gen_case(rng, kind='NM', nmax=7, malformed=False, zero_init_dur=False, direc
     tmin = F(rng.choice([0, 0, 5, -3]), rng.choice([1, 2]))
     case = {'kind': kind, 'gc': gc, 'full': rng.random() < 0.5, 'tmin': tmin, 'rho': None, 'r0': None, 'i0_form': 'list',
             'tmax': rng.choice([None, None, tmin + F(rng.randint(1, 8), 2)])}
+    case['joint'] = kind == 'NM' and rng.random() < 0.3        # the joint user-function API trans_and_rec_time_fxn(node, susceptible_neighbors, *args)
     r = rng.random()
     if malformed and r < 0.5:
         case['i0'] = [gc.order[0]]; case['rho'] = F(1, 4)              # both given: EoNError
@@ -149,6 +150,14 @@ def call_impl(EoN, case, full=None, calls=None):
         def rtf(u, *a):
             if calls is not None: calls.append((im[u], None))
             return fl(rtab[u])
+        if case.get('joint'):
+            # the documented joint form: one call returns ({susceptible neighbour: delay}, duration); consulting the tables in the
+            # order the separate form does (duration first, then the neighbours as handed over) gives the same call log
+            def both(u, sus, tag):
+                assert tag == 'ARGS'
+                d = rtf(u)
+                return {v: ttf(u, v) for v in sus}, d
+            return EoN.fast_nonMarkov_SIR(gc.G, trans_and_rec_time_fxn=both, trans_and_rec_time_args=('ARGS',), **kw)
         return EoN.fast_nonMarkov_SIR(gc.G, trans_time_fxn=ttf, rec_time_fxn=rtf, **kw)
     return EoN.fast_SIR(gc.G, float(case['tau']), float(case['gamma']), transmission_weight=gc.ewl,
                         recovery_weight=gc.nwl, **kw)
@@ -224,6 +233,7 @@ def case_json(case, draws=None):
          'r0': None if case['r0'] is None else [repr(u) for u in case['r0']],
          'rho': None if case['rho'] is None else str(case['rho']), 'tmin': str(case['tmin']),
          'tmax': None if case['tmax'] is None else str(case['tmax']), 'full': case['full']}
+    if case.get('joint'): j['joint'] = True
     if case['kind'] == 'NM':
         j['rtab'] = [[repr(u), None if d is None else str(d)] for u, d in case['rtab'].items()]
         j['dtab'] = [[repr(u), repr(v), None if d is None else str(d)] for (u, v), d in case['dtab'].items()]
@@ -237,7 +247,7 @@ def case_from_json(j):
     ev = lambda l: None if l is None else [eval(x) for x in l]
     fq = lambda x: None if x is None else F(x)
     c = {'kind': j['kind'], 'gc': R.GraphCase.from_json(j['graph']), 'i0': ev(j['i0']), 'i0_form': j['i0_form'],
-         'r0': ev(j['r0']), 'rho': fq(j['rho']), 'tmin': F(j['tmin']), 'tmax': fq(j['tmax']), 'full': j['full']}
+         'r0': ev(j['r0']), 'rho': fq(j['rho']), 'tmin': F(j['tmin']), 'tmax': fq(j['tmax']), 'full': j['full'], 'joint': bool(j.get('joint'))}
     if j['kind'] == 'NM':
         c['rtab'] = {eval(u): fq(d) for u, d in j['rtab']}
         c['dtab'] = {(eval(u), eval(v)): fq(d) for u, v, d in j['dtab']}
